@@ -3,7 +3,7 @@
    encoders; decode16 / expand_c / decode32 are the Spec. *)
 From Coq Require Import ZArith List String.
 From BB Require Import Base.PyBase Gen.Encoders Gen.Criteria Spec.RV32 Spec.RVC Spec.Operands Spec.Legal
-  Model.Items Model.Encode Model.Passes Proofs.Layout Proofs.Pipeline Proofs.Rules Proofs.RulesMain Proofs.Stable.
+  Model.Items Model.Encode Model.Passes Spec.Sem Proofs.Layout Proofs.Pipeline Proofs.Rules Proofs.RulesMain Proofs.RulesSem Proofs.Stable.
 Import ListNotations.
 Open Scope Z_scope.
 
@@ -30,6 +30,19 @@ Theorem C04_rule_encodes :
       exists ins, decode32 w = Some ins /\ equiv_b (expand_c c) ins = true.
 Proof. exact rule_encodes. Qed.
 Print Assumptions C04_rule_encodes.
+
+(* ... and in terms of the architectural effect (Spec/Sem.v step semantics): from EVERY state the 16-bit instruction and the
+   32-bit instruction it replaces lead to the same registers, memory and pc (pointwise; the instruction length is the
+   same parameter on both sides -- a compressed instruction advances and links by 2, which is its documented effect) *)
+Theorem C04_rule_semantics :
+  forall v r, rule_check v r = true ->
+  exists fs final cls cfs h c,
+    orig_fields (nv_name v) = Some fs /\ assoc_str r construction = Some (final, cls, cfs) /\
+    encode final (pos16_of v cfs) [] = Ok h /\ decode16 h = Some c /\
+    forall w, In (nv_name v) base_mnemonics -> encode (nv_name v) (pos32_of v fs) [] = Ok w ->
+      exists ins, decode32 w = Some ins /\ sem_equiv (expand_c c) ins.
+Proof. exact rule_semantics. Qed.
+Print Assumptions C04_rule_semantics.
 
 (* a register operand reaches the encoders only through its number: the numeric views speak for every spelling *)
 Theorem C04_spelling : forall a n, regnum a = Some n ->
